@@ -141,3 +141,32 @@ Example C11_example_same_salt : exists s, run2 (init2 cfg_resumed) ex_same_salt 
   store (base s) = [777; 778; 777; 777] /\ retries (elog (base s)) = [56; 48; 44; 40].
 Proof. eexists. split; [vm_compute; reflexivity|repeat split; reflexivity]. Qed.
 Print Assumptions C11_example_same_salt.
+
+(* ---- a session storage that can fail ---------------------------------------------------------------------
+   [store] is the sequence of SaveSession calls; SaveSession's error is only reported, and the storage holds what
+   the last SUCCESSFUL call wrote ([file_of oks st f0], Client/StoreFaults.v).  In every history, whatever calls
+   failed before: if the newest call succeeded the storage holds the salt the client uses; with a storage that
+   always fails nothing is written.  The harness runs such storages (configurations store=fail1 / store=failall)
+   and counts every SaveSession call in the projection. *)
+From MTV Require Import Client.StoreFaults.
+
+Theorem C11_storage_holds_the_salt_if_the_last_store_succeeded : forall c ls s, run2 (init2 c) ls = Some s ->
+  forall oks f0, store (base s) <> [] -> hd false oks = true ->
+  file_of oks (store (base s)) f0 = salt (base s).
+Proof. exact file_holds_salt_if_last_store_succeeded. Qed.
+Print Assumptions C11_storage_holds_the_salt_if_the_last_store_succeeded.
+
+Theorem C11_failing_storage_is_never_written : forall st oks f0, Forall (fun b => b = false) oks ->
+  file_of oks st f0 = f0.
+Proof. exact file_unchanged_if_all_fail. Qed.
+Print Assumptions C11_failing_storage_is_never_written.
+
+Example C11_store_fails_once_then_the_salt_is_announced_again :
+  let ls := [L1 (LCall 0 false); L1 (LStep (ACaller 0) 10); L1 (LStep (ACaller 0) 0); L1 (LStep (ACaller 0) 0);
+             L1 (LSrv (3, 0, BBadSalt 40 777)); L1 (LStep ARx 0); L1 (LStep ARx 0); L1 (LStep ARx 0);
+             L1 (LSrv (7, 1, BNewSession 777)); L1 (LStep ARx 0); L1 (LStep ARx 0)] in
+  option_map (fun s => (store (base s), salt (base s), file_of [true; false] (store (base s)) 5))
+             (run2 (init2 {| cf_warn := WNil; cf_handler := false; cf_keyed := true |}) ls)
+  = Some ([777; 777], 777, 777).
+Proof. exact fail_once_then_announced_again. Qed.
+Print Assumptions C11_store_fails_once_then_the_salt_is_announced_again.
